@@ -48,6 +48,7 @@ type c11State struct {
 	rows      []*c11Row // attached (incl. separators)
 	dest      *c11Row   // nil = table; where errors raised by callbacks right now must end up
 	nErr      int
+	salt      int // rotates the dynamic types of the errors raised
 	nSrc      int
 	log       []string
 	cbEvents  int
@@ -58,9 +59,79 @@ func (s *c11State) newSrc() int { s.nSrc++; return s.nSrc }
 func (s *c11State) raise(src int, what string) *c11Err {
 	s.nErr++
 	id := fmt.Sprintf("e%d-src%d-%s", s.nErr, src, what)
-	e := &c11Err{err: errors.New(id), id: id, what: what, src: src, seq: s.nErr}
+	e := &c11Err{err: c11MakeErr(id, s.nErr*5+s.salt), id: id, what: what, src: src, seq: s.nErr}
 	s.byErr[e.err] = e
+	s.c.Rec.Count("detail:error_value_kind:"+c11ErrKindNames[(s.nErr*5+s.salt)%len(c11ErrKindNames)], 1)
 	return e
+}
+
+// ---- the error values raised: one error is one error whatever else its dynamic type can do
+
+// c11RichErr also lists "details" through an Errors method, like an application's validation error would.
+type c11RichErr struct {
+	id      string
+	details []error
+}
+
+func (e *c11RichErr) Error() string   { return e.id }
+func (e *c11RichErr) Errors() []error { return e.details }
+
+// c11ContainerErr is an error built around the library's own public container: it has Errors, AddError and AddErrorList.
+type c11ContainerErr struct {
+	*tabular.ErrorContainer
+	id string
+}
+
+func (e *c11ContainerErr) Error() string { return e.id }
+
+type c11UnwrapManyErr struct {
+	id    string
+	inner []error
+}
+
+func (e *c11UnwrapManyErr) Error() string   { return e.id }
+func (e *c11UnwrapManyErr) Unwrap() []error { return e.inner }
+
+type c11UnwrapOneErr struct {
+	id    string
+	inner error
+}
+
+func (e *c11UnwrapOneErr) Error() string        { return e.id }
+func (e *c11UnwrapOneErr) Unwrap() error        { return e.inner }
+func (e *c11UnwrapOneErr) Is(target error) bool { return true }
+func (e *c11UnwrapOneErr) String() string       { return "String() of " + e.id }
+func (e *c11UnwrapOneErr) GoString() string     { return "GoString() of " + e.id }
+
+// c11ValErr is a comparable value type (not a pointer).
+type c11ValErr struct{ id string }
+
+func (e c11ValErr) Error() string { return e.id }
+
+var c11ErrKindNames = []string{"errors.New", "pointer type with an Errors() []error method listing 2 details", "pointer type with an Errors() method listing nothing", "type embedding *tabular.ErrorContainer (holding 1 detail)", "type with Unwrap() []error", "type with Unwrap() error, Is, String and GoString", "fmt.Errorf with %w", "errors.Join of two", "comparable struct value"}
+
+func c11MakeErr(id string, kind int) error {
+	switch kind % len(c11ErrKindNames) {
+	case 1:
+		return &c11RichErr{id: id, details: []error{errors.New("detail 1 of " + id), errors.New("detail 2 of " + id)}}
+	case 2:
+		return &c11RichErr{id: id}
+	case 3:
+		ec := tabular.NewErrorContainer()
+		ec.AddError(errors.New("detail held by " + id))
+		return &c11ContainerErr{ErrorContainer: ec, id: id}
+	case 4:
+		return &c11UnwrapManyErr{id: id, inner: []error{errors.New("inner 1 of " + id), errors.New("inner 2 of " + id)}}
+	case 5:
+		return &c11UnwrapOneErr{id: id, inner: errors.New("inner of " + id)}
+	case 6:
+		return fmt.Errorf("%s: %w", id, errors.New("wrapped by "+id))
+	case 7:
+		return errors.Join(errors.New(id+" first half"), errors.New(id+" second half"))
+	case 8:
+		return c11ValErr{id}
+	}
+	return errors.New(id)
 }
 
 func (s *c11State) expect(e *c11Err, row *c11Row) {
@@ -496,7 +567,7 @@ func (s *c11State) step(r *gen.R) {
 }
 
 func c11History(c *Ctx, i int, r *gen.R) {
-	s := &c11State{c: c, t: tabular.New(), byErr: map[error]*c11Err{}}
+	s := &c11State{c: c, t: tabular.New(), byErr: map[error]*c11Err{}, salt: r.Intn(9)}
 	desc := map[string]interface{}{}
 	c.Case = desc
 	n := r.Range(5, 40)
